@@ -14,6 +14,11 @@ spec -> code (TreeDistHist.tla): the same distances (and subsets(), compare_by_s
 histories: measure, then copy / deepcopy / prune / bifurcating / multifurcating / reassign_names
 on the same or a copied object, then measure again on those objects; the expected value is
 always the definition on the current topology.
+spec -> code (TreeOps.Query): read-only queries of every reached tree (node distances, common
+ancestors, connecting edges, get_edge_names with outgroup, distances for endpoint subsets,
+farthest tips, same_topology) against Trees.tla operators, with TLC-checked laws.
+spec -> code (TreeOpsConsensus.tla): majority_rule / weighted_majority_rule (rooted, unrooted,
+strict or greedy) on triples of weighted trees: allowed topologies, support and mean length per edge.
 code -> spec (TreeOpsTrace.tla): seeded random compositions on larger random trees with
 dyadic branch lengths are recorded (receiver before / result / receiver after) and judged
 by the same Trees.tla definitions.
@@ -28,6 +33,7 @@ import time
 from common import Run, main_wrapper
 from tlc import SPECS, Scratch, read_emitted, run_tlc
 
+import consensus_C09 as CS
 import dist_C09 as D
 import explore_C09 as X
 import trace_C09 as T
@@ -59,7 +65,7 @@ def tree_ops(run: Run, scratch, cfg, tag, *, timeout=3000):
     os.unlink(emit)
     t1 = time.time()
     budget = int(os.environ.get("VERIF_C09_BUDGET", "0")) or None
-    st = X.explore(g, run, VARIANTS, seed=run.seed, budget=budget)
+    st = X.explore(g, run, VARIANTS, seed=run.seed, budget=budget, light=run.tier == "quick")
     st["wall_s"] = {"tlc_and_load": round(t1 - t0, 1), "replay": round(time.time() - t1, 1)}
     st["tlc"] = {"distinct": res.distinct, "generated": res.generated, "depth": res.depth, "wall_s": round(res.wall, 1)}
     run.note(f"treeops_{tag}", st)
@@ -138,6 +144,29 @@ def tree_dist_hist(run: Run, scratch, cfg, tag):
     return st
 
 
+def consensus(run: Run, scratch, cfg, tag):
+    """Consensus trees (TreeOpsConsensus.tla) replayed on cogent3.phylo.consensus."""
+    emit = scratch / f"consensus-{tag}.ndjson"
+    res = run_tlc("TreeOpsConsensus", cfg, scratch, workers=16, env={"EMIT_FILE": emit}, timeout=1800, heap="6g")
+    run.add_tlc(res)
+    recs = list(read_emitted(emit))
+    os.unlink(emit)
+    t1 = time.time()
+    st = CS.replay(recs, run)
+    st["replay_wall_s"] = round(time.time() - t1, 1)
+    st["tlc"] = {"distinct": res.distinct, "generated": res.generated, "wall_s": round(res.wall, 1)}
+    run.note(f"consensus_{tag}", st)
+    run.cov["traces_validated_against_impl"] += st["cases"]
+    run.cov["evaluations"] += st["calls"]
+    run.cov["distinct_nontrivial"] += st["cases"]
+    for m in ("majority_rule", "rooted", "unrooted"):
+        if not st.get(f"method_{m}"):
+            raise RuntimeError(f"consensus/{tag}: {m} never executed (vacuous)")
+    if not st.get("cases_with_several_allowed_outcomes"):
+        raise RuntimeError(f"consensus/{tag}: no case with ties between greedy outcomes (vacuous nondeterminism)")
+    return st
+
+
 def check(run: Run):
     quick = run.tier == "quick"
     with Scratch("C09") as scratch:
@@ -152,7 +181,7 @@ def check(run: Run):
             ops.append(tree_ops(run, scratch, str(cfg6), "sample6"))
         if quick:
             tree_dist(run, scratch, "MC_TreeDist_quick.cfg", "all4")
-            tree_dist(run, scratch, "MC_TreeDist_quick5.cfg", "sample5", simulate="num=60")
+            tree_dist(run, scratch, "MC_TreeDist_quick5.cfg", "sample5", simulate="num=30")
         else:
             tree_dist(run, scratch, "MC_TreeDist_thorough.cfg", "all5")
             tree_dist(run, scratch, "MC_TreeDist_sample6.cfg", "sample6", simulate="num=1500")
@@ -161,6 +190,11 @@ def check(run: Run):
         else:
             tree_dist_hist(run, scratch, "MC_TreeDist_hist_all4.cfg", "all4")
             tree_dist_hist(run, scratch, "MC_TreeDist_hist_thorough.cfg", "sample5")
+        if quick:
+            consensus(run, scratch, "MC_TreeOps_consensus_quick.cfg", "sample4")
+        else:
+            consensus(run, scratch, "MC_TreeOps_consensus_thorough4.cfg", "all4")
+            consensus(run, scratch, "MC_TreeOps_consensus_thorough5.cfg", "sample5")
         # code -> spec: recorded executions on larger random trees judged by TreeOpsTrace.tla
         T.validate(run, scratch)
     run.cov["rule"] = (
@@ -171,6 +205,8 @@ def check(run: Run):
         "TreeDistHist: every transition of the closed graph (tree A, tree B, measured?) x {measure, copy, deepcopy, prune, "
         "bifurcating, multifurcating(3), rename on a copy / in place} for all A and the tier's sample of B, each followed by a "
         "measurement on the same objects, x 2 child orders. "
+        "Query: four read-only query groups on every reached tree of at most 5 tips (plain names). "
+        "Consensus: every first tree x pairs from the tier's sample of trees x weights {111, 211} x strict x {majority_rule, rooted, unrooted}. "
         "TreeOpsTrace: every call of seeded random compositions on random trees (6-12 tips, lengths k/8) judged by TLC. "
         "distinct_nontrivial = distinct (abstract tree, call) pairs + distinct same-kind tree pairs + recorded calls executed on real code"
     )
@@ -181,6 +217,10 @@ def check(run: Run):
         "blank-containing names are read back with make_tree(underscore_unmunge=True); the default reader documents that it keeps underscores",
         "child order is not part of the abstract tree; only sorted() is checked for the order of tips",
         "root_at_midpoint is exercised while the diameter is an even number of half units and at most one created edge exists",
+        "consensus: where the docstring leaves the order among equally weighted conflicting clusters/splits open, every greedy outcome is allowed; "
+        "input trees of the unrooted consensus are read as the equivalent unrooted trees (the two root edges of a bifurcating root are one edge), as get_splits documents",
+        "get_connecting_edges: the common ancestor is part of the path unless both ends are tips (docstring); get_edge_names(outgroup_name=) is taken as the clade seen from that tip",
+        "same_topology is compared with split equality only for trees with >= 3 root children and no single-child nodes (for rooted drawings the method also compares the root position)",
         "Lin-Rajan-Moret is compared only for equally resolved trees (the code raises ValueError otherwise); mixed rooted/unrooted pairs are not measured",
     ]
 
